@@ -185,6 +185,23 @@ CHECKS = {
              "those are covered by the bitwise oracle. Trusted: sanitizers, harness.",
         technique="Coq proof (invariant over operation sequences) + sanitizer-backed operation-sequence tie",
         ref="6 C17"),
+    "C16": dict(
+        text="Coq (partial): in an interleaving model with arbitrary atomic actions, if every call of thread t writes only "
+             "t's own State and reads only that and the shared solver, then for any number of threads and ANY schedule each "
+             "State holds bit for bit what the thread's own calls leave there when run alone, at every point of the schedule, "
+             "and the solver is unchanged (C16_every_thread_gets_its_serial_result, C16_interleaving_equals_serial_prefix, "
+             "C16_shared_solver_unchanged; induction over the schedule). The premise is discharged on the current source by a "
+             "footprint table regenerated on every run (tools/footprint.py -> gen/Footprint.v): no function reachable from "
+             "GetState / CalculateRateConstants / Solve(time_step, state) assigns a member of its own object or has a "
+             "non-const local static, and the CPU headers contain no mutable member, const_cast, shared_ptr or non-const "
+             "static-storage variable (C16_footprint_ok, by vm_compute). Tie: 2..16 real threads on one real solver under "
+             "ThreadSanitizer, bitwise comparison with the serial run.",
+        note="Partial: the memory model, allocator and libm are not modelled; TSan sees only the schedules that ran. The "
+             "translator is lexical and trusted. The Solve overload that takes parameters writes solver_parameters_ and is "
+             "outside the property's three entry points.",
+        technique="Coq proof (interleaving non-interference, induction over schedules) + footprint table regenerated by a "
+                  "translator and checked by computation + ThreadSanitizer differential runs",
+        ref="6 C16"),
     "C20": dict(
         text="Coq: every condition named by the property has its documented (category, code) in the error tables "
              "regenerated from util/error.hpp and the enum/category definitions on this run "
